@@ -8,7 +8,7 @@ CALLSIG = {'ENTRY_SIGNAL': 'ENTRY', 'EXIT_SIGNAL': 'EXIT', 'INIT_SIGNAL': 'INIT'
 
 def fname(run, state):
   """the __name__ of the state function of `state` (what miros' instrumentation prints)"""
-  if run.build is None or run.build.kind not in ('closure', 'closure-spied'):
+  if run.build is None or run.build.kind not in ('closure', 'closure-spied', 'closure-mixed'):
     return state      # template/factory/to_code states are named after the state
   st = run.spec.states.get(state)
   return st.get('fn_name', state) if st is not None else state
@@ -99,7 +99,7 @@ def iter_dispatches(run):
 
 
 def has_calls(run):
-  return run.build.kind in ('closure', 'closure-spied')
+  return run.build.kind in ('closure', 'closure-spied', 'closure-mixed')
 
 
 def describe_step(run, i, ob, pred, recs):
